@@ -19,6 +19,8 @@ CHAINS = {
     "brotli": [{"id": FILTER_BROTLI, "level": 5}],
     "delta+lzma2": [{"id": FILTER_DELTA}, {"id": FILTER_LZMA2, "preset": 1}],
     "x86+lzma2": [{"id": FILTER_X86}, {"id": FILTER_LZMA2, "preset": 1}],
+    "delta+x86+lzma2": [{"id": FILTER_DELTA}, {"id": FILTER_X86}, {"id": FILTER_LZMA2, "preset": 1}],      # three coders
+    "delta+x86+arm+lzma2": [{"id": FILTER_DELTA}, {"id": FILTER_X86}, {"id": FILTER_ARM}, {"id": FILTER_LZMA2, "preset": 1}],  # four
     "arm+lzma": [{"id": FILTER_ARM}, {"id": FILTER_LZMA}],
     "x86+deflate": [{"id": FILTER_X86}, {"id": FILTER_DEFLATE}],
     "x86+bzip2": [{"id": FILTER_X86}, {"id": FILTER_BZIP2}],
